@@ -180,6 +180,15 @@ impl Monitor for C11 {
         vec!["arrival_bounds_checked", "request_bounds_checked", "steps_compared", "empty_models_checked"]
     }
 
+    fn unguarded_library_failure(&self, c: &crate::framework::Caught, rep: &mut CaseReport) -> bool {
+        // this property's objects must answer every query: a library panic / runaway loop that surfaces
+        // outside a guarded call (e.g. while the monitor inspects the shared cache) is a violation too
+        rep.violation(
+            format!("C11 kind=library-{}-outside-a-guarded-call class={}", c.kind, c.class()),
+            crate::jobj! {"caught" => c.to_json(), "case" => rep.sample.clone()},
+        );
+        true
+    }
     fn run_case(&self, _index: u64, seed: u64, _tier: Tier, rep: &mut CaseReport) {
         let mut rng = Rng::new(seed);
         let g = ArrGen {
@@ -234,6 +243,53 @@ impl Monitor for C11 {
                         rep.violation(format!("C11 impl=ApproximatedPoisson(default steps_iter) kind={}", kind), jobj! {"rate"=>rate,"epsilon"=>eps,"discrepancy"=>d,"first_items"=>&items[..items.len().min(8)]});
                     } else if let Some((kind, d)) = compare_steps(&fj, &items_j, exj) {
                         rep.violation(format!("C11 impl=Propagated<ApproximatedPoisson> kind={}", kind), jobj! {"rate"=>rate,"epsilon"=>eps,"jitter"=>jit,"discrepancy"=>d,"first_items"=>&items_j[..items_j.len().min(8)]});
+                    }
+                }
+            }
+        }
+
+        // ---- request bounds over such a model, alone and inside Aggregate / Slice next to an ordinary
+        //      component: a component whose demand is zero for short windows still has steps later on
+        if _index % 8 == 0 {
+            use response_time_analysis::arrival::{ApproximatedPoisson, Periodic};
+            use response_time_analysis::demand::{Aggregate, RequestBound, Slice, RBF};
+            use response_time_analysis::time::Service;
+            use response_time_analysis::wcet::Scalar;
+            let rate = 10f64.powf(-3.5 + 2.0 * rng.f64());
+            let eps = *rng.pick(&[0.05f64, 0.01, 0.001]);
+            let (c1, c2, t) = (rng.range(1, 5), rng.range(1, 5), rng.range(2, 30));
+            let hp = 200u64;
+            let r = guard(|| {
+                let mk = || -> Vec<Box<dyn RequestBound>> {
+                    vec![
+                        Box::new(RBF::new(ApproximatedPoisson::new(rate, eps), Scalar::new(Service::from(c1)))),
+                        Box::new(RBF::new(Periodic::new(Duration::from(t)), Scalar::new(Service::from(c2)))),
+                    ]
+                };
+                let agg = Aggregate::new(mk());
+                let parts = mk();
+                let sl = Slice::of(&parts[..]);
+                let mut out = vec![];
+                for (name, b) in [("Aggregate", &agg as &dyn RequestBound), ("Slice", &sl as &dyn RequestBound)] {
+                    let f: Vec<u64> = (0..=hp).map(|x| u64::from(b.service_needed(Duration::from(x)))).collect();
+                    let (items, ex) = pull(&mut *b.steps_iter(), hp, hp as usize + 10);
+                    out.push((name, f, items, ex));
+                }
+                out
+            });
+            match r {
+                Err(c) => rep.violation(format!("C11 impl=request-bound-with-ApproximatedPoisson-component kind={} class={}", c.kind, c.class()), jobj! {"rate"=>rate,"epsilon"=>eps,"caught"=>c.to_json()}),
+                Ok(out) => {
+                    for (name, f, items, ex) in out {
+                        rep.count("request_bounds_with_a_component_silent_at_delta_one_checked", 1);
+                        rep.count("steps_compared", items.len() as u64);
+                        if let Some((kind, d)) = compare_steps(&f, &items, ex) {
+                            rep.violation(
+                                format!("C11 impl=demand::{}<[RBF<ApproximatedPoisson>, RBF<Periodic>]> kind={}", name, kind),
+                                jobj! {"rate"=>rate,"epsilon"=>eps,"periodic"=>t,"costs"=>vec![c1, c2],"discrepancy"=>d,"first_items"=>&items[..items.len().min(8)]},
+                            );
+                            break;
+                        }
                     }
                 }
             }
